@@ -493,17 +493,6 @@ Print Assumptions format_ends_with_one_newline.
 
 (* ------------------------------------------------------------------ *)
 (* 8. the hypothesis is decidable; non-vacuity *)
-Definition lone_linesb (lines : list lline) (e : nat) : bool :=
-  forallb (fun kl : nat * lline =>
-             let (k, ln) := kl in
-             if existsb (Nat.eqb e) (ll_toks ln) then
-               nat_list_eqb (ll_toks ln) [e]
-               && match ll_parent ln with None => true | Some _ => false end
-               && (ll_type ln IS LLT_Eof)
-               && forallb (fun l' => match ll_parent l' with Some (pl, _) => negb (Nat.eqb pl k) | None => true end) lines
-             else true)
-          (combine (seq 0 (length lines)) lines).
-
 Lemma nth_error_combine_seq {A} (l : list A) : forall i k x, nth_error l k = Some x -> In (i + k, x) (combine (seq i (length l)) l).
 Proof.
   induction l as [|a l IH]; intros i k x H; [destruct k; discriminate|].
@@ -529,11 +518,6 @@ Proof.
   intros l' pl pt Hl' Hp. match goal with H0 : forallb _ lines = true |- _ => rewrite forallb_forall in H0; specialize (H0 l' Hl') end.
   rewrite Hp in *. intros ->. rewrite PeanoNat.Nat.eqb_refl in *. discriminate.
 Qed.
-
-Definition eof_lines_okb (segs : list seg) : bool :=
-  lone_linesb (fm_lines segs) (length segs - 1)
-  && existsb (fun ln => ll_type ln IS LLT_Eof) (fm_lines segs)
-  && match nth_error (fm_marks segs) (length segs - 1) with Some false => true | _ => false end.
 
 Lemma eof_lines_okb_ok segs : eof_lines_okb segs = true -> eof_lines_ok segs.
 Proof.
